@@ -252,7 +252,7 @@ for p in props:
                        "level_claimed": {"category": "proof", "text": c["text"], "design_ref": c["design"]},
                        "level_note": c["note"], "technique": c["technique"]})
 m = {"version": 1,
-     "setup_cmd": "python3 harness/extract.py && cd lean && (lake build ShexerModel driver specdriver strdriver || echo 'setup: a target did not build against the current /repo; every check rebuilds what it needs and reports it')",
+     "setup_cmd": "python3 harness/extract.py && cd lean && (lake build ShexerModel driver specdriver strdriver $(ls ShexerModel/Props/*.lean | sed 's#/#.#g; s#\\.lean$##') || echo 'setup: a target did not build against the current /repo; every check rebuilds what it needs and reports it')",
      "hooks": {"guard": "SHEXER_VERIF", "enable": "no hooks are needed: every check observes the public API of /repo in-process "
                "(C15 replaces one module attribute of shexer.io.sparql.query from outside)",
                "baseline_off_cmd": "cd /repo && /venv/bin/python -m pytest -ra -q -p no:cacheprovider --timeout=900 --continue-on-collection-errors",
